@@ -508,6 +508,32 @@ def _run_combine(desc):
                 sh.violation("TensorMap.from_combine_phases:voxel-strain-is-not-the-per-grain-strain-against-its-own-phase", case, {"max_diff": worst})
             sh.evaluations += 1
             sh.nontrivial += 1
+    # TensorMap.from_stack: sub-volumes of one, two and three layers stacked along Z in every order: layer by layer the strain is the
+    # per-grain one
+    phase = {0: ucm.unitcell(cells[0], "P")}
+    vols = []
+    for nz, first in ((2, 0), (1, 6), (3, 9)):
+        ub = np.array([ubis_for(0, first + v) for v in range(nz * 3)]).reshape(nz, 1, 3, 3, 3)
+        vols.append(ub)
+    for order in itertools.permutations(range(3)):
+        with contextlib.redirect_stdout(io.StringIO()):
+            parts = [tm.TensorMap(maps={"UBI": vols[k].copy(), "phase_ids": np.zeros(vols[k].shape[:3], int)}, phases=phase) for k in order]
+            T = tm.TensorMap.from_stack(parts, zstep=1.0)
+            es = np.array(T.eps_sample)
+        want_u = np.concatenate([vols[k] for k in order])
+        case = {"kind": "combine", "cell": CELLS[ci], "owners": "from_stack", "order_of_the_maps": list(order), "seed": seed_of()}
+        if es.shape[:3] != want_u.shape[:3]:
+            sh.violation("TensorMap.from_stack:shape", case, {"shape": list(es.shape), "expected": list(want_u.shape[:3])})
+            continue
+        worst = 0.0
+        for idx in np.ndindex(*want_u.shape[:3]):
+            w_ = gm.grain(want_u[idx]).eps_sample_matrix(cells[0], 0.5)
+            d_ = np.abs(es[idx] - w_).max()
+            worst = max(worst, float(d_) if np.isfinite(d_) else np.inf)
+        if not worst <= 1e-10:
+            sh.violation("TensorMap.from_stack:layer-strain-is-not-the-per-grain-strain", case, {"max_diff": worst})
+        sh.evaluations += 1
+        sh.nontrivial += 1
     sh.outcomes.add(("combine", ci))
     sh.sample(case, limit=1)
     return sh
